@@ -30,6 +30,7 @@ wide-range (independent magnitude per coordinate), repeated points, all-equal, c
 t from {uniform(0,1), dyadic, 0, 1, -0, 1+-ulp, subnormal, <0, >1, +-1e30, +-inf, NaN} and for splines additionally {k/n exactly, k/n +-1..3 ulp, k/n +-1e-6}; \
 1..8 segments; halting rules {|err|^2 < thr^2, max|err| < thr with thr = 10^U(-6,0)*scale, always, never, every n-th call, 64-bit verdict pattern}. \
 joins: every (type, n, k, ulp offset) combination x seeded polygons. \
+ends-extreme: 1..4 segments, coordinates from {+-f32::MAX, +-1e38..3.4e38, +-1e20..1e38, small, 0, +-inf, subnormal}, t from {0, -0, 1, <0, >1, 1+ulp, -1e-45, +-1e30, +-inf} (exact-end clauses only). \
 Non-trivial = bezier: 0 < t < 1 on a non-constant polygon; spline/joins: t within 2 ulp of an interior join of a non-constant polygon; \
 approximate: >= 3 pieces at mixed depths. Distinct by the bit pattern of the case.";
 
@@ -802,6 +803,124 @@ fn join_case(combos: &[(usize, usize, usize, i32)], seed: u64, i: u64) -> SplCas
     SplCase { ty, shape, pts: p.into_iter().map(xs).collect(), t: X(t) }
 }
 
+// ---------------------------------------------------------------- ends, for control polygons at the limits of f32
+
+/// "Return the first/last control point at and beyond the ends" and "the polyline starts and ends exactly at the
+/// curve's endpoints" do not depend on the interior being computable: they must hold for control points whose
+/// differences overflow f32 (or that are infinite), where every interior value is inf or NaN.
+#[derive(Clone, Debug, Serialize, Deserialize)]
+pub struct ExtCase {
+    pub ty: String,
+    /// 3n+1 points, n in 1..=4
+    pub pts: Vec<[X; 3]>,
+    pub t: X,
+}
+
+fn ext_coord() -> impl Strategy<Value = f32> {
+    prop_oneof![
+        2 => Just(f32::MAX),
+        2 => Just(f32::MIN),
+        3 => (1.0f32..3.4).prop_map(|m| m * 1e38),
+        3 => (1.0f32..3.4).prop_map(|m| -m * 1e38),
+        2 => signed(log_uniform(20.0, 38.0)),
+        2 => -1.0f32..1.0,
+        1 => Just(0.0f32),
+        1 => Just(f32::INFINITY),
+        1 => Just(f32::NEG_INFINITY),
+        1 => signed(log_uniform(-44.0, -30.0)),
+    ]
+}
+
+pub fn ext_case() -> BoxedStrategy<ExtCase> {
+    let ty = proptest::sample::select(TYPES.to_vec());
+    let t = prop_oneof![
+        4 => Just(0.0f32),
+        2 => Just(-0.0f32),
+        4 => Just(1.0f32),
+        2 => (0.0f32..10.0).prop_map(|u| -u - 1e-6),
+        2 => (0.0f32..10.0).prop_map(|u| 1.0 + u + 1e-6),
+        1 => Just(nudge(1.0, 1)),
+        1 => Just(-1e-45f32),
+        1 => prop_oneof![Just(1e30f32), Just(-1e30f32), Just(f32::INFINITY), Just(f32::NEG_INFINITY)],
+    ];
+    (ty, 1usize..=4, proptest::collection::vec(proptest::array::uniform3(ext_coord()), 13), t)
+        .prop_map(|(ty, n, raw, t)| {
+            let nc = ncomp(ty);
+            let pts = raw[..3 * n + 1]
+                .iter()
+                .map(|q| {
+                    let mut q = *q;
+                    for k in nc..3 {
+                        q[k] = 0.0;
+                    }
+                    xs(q)
+                })
+                .collect();
+            ExtCase { ty: ty.to_string(), pts, t: X(t) }
+        })
+        .boxed()
+}
+
+fn check_ext_t<T: Pt>(c: &ExtCase, obs: &mut Obs) -> Check {
+    let nc = T::N;
+    let pts: Vec<[f32; 3]> = c.pts.iter().map(|p| fs(*p)).collect();
+    ensure!(pts.len() >= 4 && pts.len() % 3 == 1 && pts.len() <= 13, "bad-case", "control point count {} is not 3n+1 with 1 <= n <= 4", pts.len());
+    ensure!(pts.iter().flatten().all(|c| !c.is_nan()), "bad-case", "NaN control coordinate");
+    let t = c.t.0;
+    ensure!(t <= 0.0 || t >= 1.0, "bad-case", "only parameters at or beyond the ends are asserted here");
+    let last = pts.len() - 1;
+    let n = last / 3;
+    let tpts: Vec<T> = pts.iter().map(|p| T::make(*p)).collect();
+    let cb = CubicBezier([tpts[0].clone(), tpts[1].clone(), tpts[2].clone(), tpts[3].clone()]);
+    let (ev, fe) = match catch(|| (cb.eval(t).comps(), cb.fast_eval(t).comps())) {
+        Ok(r) => r,
+        Err(e) => fail!("bezier-panic", "CubicBezier<{}> eval/fast_eval panicked at t={t:?}: {e}", c.ty),
+    };
+    let sp = match catch(|| BezierSpline::new(&tpts)) {
+        Ok(s) => s,
+        Err(e) => fail!("spline-panic", "BezierSpline::new panicked on {} points: {e}", pts.len()),
+    };
+    let sv = match catch(|| sp.eval(t).comps()) {
+        Ok(r) => r,
+        Err(e) => fail!("spline-panic", "BezierSpline<{}> ({n} segments) eval panicked at t={t:?}: {e}", c.ty),
+    };
+    let (want_b, want_s, which) = if t <= 0.0 { (pts[0], pts[0], "first") } else { (pts[3], pts[last], "last") };
+    let same = |a: f32, b: f32| a == b; // +0 and -0 are the same point
+    for k in 0..nc {
+        ensure!(same(ev[k], want_b[k]), "end-not-exact", "eval({t:?}) component {k} = {:?}, the {which} control point has {:?}; control values {:?}", ev[k], want_b[k], &pts[..4]);
+        ensure!(same(fe[k], want_b[k]), "end-not-exact", "fast_eval({t:?}) component {k} = {:?}, the {which} control point has {:?}; control values {:?}", fe[k], want_b[k], &pts[..4]);
+        ensure!(same(sv[k], want_s[k]), "end-not-exact", "spline eval({t:?}) component {k} = {:?}, the {which} control point has {:?} ({n} segments)", sv[k], want_s[k]);
+    }
+    // polyline: halt at once (one piece) — its two vertices are the curve's end points
+    let out = match catch(|| sp.approximate(|_| true)) {
+        Ok(o) => o,
+        Err(e) => fail!("approximate-panic", "approximate(|_| true) panicked: {e}"),
+    };
+    ensure!(out.len() >= 2, "approx-too-short", "approximate() returned {} points", out.len());
+    let (a, b) = (out[0].comps(), out[out.len() - 1].comps());
+    for k in 0..nc {
+        ensure!(same(a[k], pts[0][k]), "approx-endpoint", "approximate(): first vertex component {k} = {:?}, the curve starts at {:?}", a[k], pts[0][k]);
+        ensure!(same(b[k], pts[last][k]), "approx-endpoint", "approximate(): last vertex component {k} = {:?}, the curve ends at {:?}", b[k], pts[last][k]);
+    }
+    obs.class(type_class(&c.ty));
+    obs.class(SEGS_CLASS[n]);
+    obs.class(if t <= 0.0 { "ext:t at or before the start" } else { "ext:t at or after the end" });
+    let overflow = (0..nc).any(|k| (0..last).any(|i| !((pts[i + 1][k] as f64 - pts[i][k] as f64).abs() <= f32::MAX as f64)));
+    if overflow {
+        obs.class("ext:a control-point difference overflows f32 or is infinite");
+        obs.nontrivial(hash_of(&(&c.ty, &c.pts, &c.t)));
+    }
+    if obs.wants_sample() && overflow {
+        let cc = c.clone();
+        obs.sample(|| json!({"case": cc}));
+    }
+    Ok(())
+}
+
+pub fn check_ext(c: &ExtCase, obs: &mut Obs) -> Check {
+    dispatch!(c.ty.as_str(), check_ext_t(c, obs))
+}
+
 // ---------------------------------------------------------------- approximate
 
 type Log = Vec<([f32; 3], bool)>;
@@ -1084,6 +1203,9 @@ pub fn run(cx: &mut Ctx) {
     });
     let n = cx.n(8_000, 500_000);
     cx.prop_check("approximate", n, apx_case, |c, obs| check_apx(c, obs));
+    cx.assume("ends-extreme: control coordinates up to f32::MAX and +-inf (no NaN): only the exact-end clauses are asserted there (eval/fast_eval/spline eval at t <= 0 and t >= 1, first and last vertex of approximate), since every interior value overflows");
+    let n = cx.n(100_000, 4_000_000);
+    cx.prop_check("ends-extreme", n, ext_case, |c, obs| check_ext(c, obs));
 }
 
 pub fn replay(sub: &str, case: &Value) -> Check {
@@ -1093,6 +1215,7 @@ pub fn replay(sub: &str, case: &Value) -> Check {
     match sub {
         "bezier" => check_bez(&serde_json::from_value::<BezCase>(case.clone()).map_err(bad)?, &mut obs),
         "spline" | "joins" => check_spl(&serde_json::from_value::<SplCase>(case.clone()).map_err(bad)?, &mut obs),
+        "ends-extreme" => check_ext(&serde_json::from_value::<ExtCase>(case.clone()).map_err(bad)?, &mut obs),
         "approximate" => check_apx(&serde_json::from_value::<ApxCase>(case.clone()).map_err(bad)?, &mut obs),
         _ => Err(Fail::new("bad-replay", format!("unknown subcheck {sub}"))),
     }
